@@ -14,7 +14,7 @@ import (
 // C05.pad
 
 func c05Pad(r *fw.Run, p *fw.Program) {
-	ru := r.Rule("C05.pad", "_toBits: pad = (P - r.Len mod P) mod P with P = unit*pad_to_units, or unit when that is 0, over the unchanged range of toBinary(c); keep_range returns that binary, otherwise toReader() is re-wrapped with unit and pad 0; toReader prepends NewZeroAtSeeker(pad) to the section (b.r.Start, b.r.Len) only when pad != 0; the zero reader yields min(n, left) zero bits", 14)
+	ru := r.Rule("C05.pad", "_toBits: pad = (P - r.Len mod P) mod P with P = unit*pad_to_units, or unit when that is 0, over the unchanged range of toBinary(c); keep_range returns that binary, otherwise toReader() is re-wrapped with unit and pad 0; toReader prepends NewZeroAtSeeker(pad) to the section (b.r.Start, b.r.Len) only when pad != 0; the zero reader yields min(n, left) zero bits; unit > 0 and pad_to_units >= 0 are established before the modulo", 15)
 
 	if fn := c05Anchor(ru, p, "(*pkg/interp.Interp)._toBits"); fn != nil {
 		c05ToBits(ru, p, fn)
@@ -243,6 +243,21 @@ func c05ToBits(ru *fw.Rule, p *fw.Program, fn *ssa.Function) {
 		posUnit = true
 	}
 	ru.Check(posUnit, "_toBits:unit-positive", p.Rel(padStore.Pos()), "unit > 0 is established before the modulo", "the modulo by the padding unit is reachable with unit <= 0")
+	nonNeg := false
+	if v, ok := g["(P2.PadToUnits < 0)"]; ok && !v {
+		nonNeg = true
+	}
+	if v, ok := g["(P2.PadToUnits >= 0)"]; ok && v {
+		nonNeg = true
+	}
+	if v, ok := g["(P2.PadToUnits <= -1)"]; ok && !v {
+		nonNeg = true
+	}
+	if v, ok := g["(P2.PadToUnits > -1)"]; ok && v {
+		nonNeg = true
+	}
+	ru.Check(nonNeg, "_toBits:padunits-nonneg", p.Rel(padStore.Pos()), "pad_to_units >= 0 is established before the modulo",
+		"the padding is computed with a possibly negative pad_to_units: P = unit*pad_to_units < 0 makes (P - len mod P) mod P negative, so a negative number of zero bits is prepended")
 
 	// results
 	nKeep, nRepack := 0, 0
@@ -420,6 +435,8 @@ func c05Raw(r *fw.Run, p *fw.Program) {
 						// success: the copy must have happened
 						if len(copies) != 1 || !c05InstrDominates(copies[0], ret) {
 							okRaw, why = false, "raw path returns success without copying"
+						} else if !c05ErrNilAt(e, ret.Block(), "internal/bitiox.CopyBits(") {
+							okRaw, why = false, "raw path returns success although the copy to the writer may have failed (truncated output reported as complete)"
 						}
 					default:
 						okRaw, why = false, "raw path returns "+d
@@ -448,4 +465,20 @@ func c05Raw(r *fw.Run, p *fw.Program) {
 		}
 		ru.Check(good, "_display", p.Rel(fn.Pos()), "v.Display(i.EvalInstance.Output, OptionsFromValue(v))", "_display must display its input on the evaluation's output with the options it was given: "+d)
 	}
+}
+
+// c05ErrNilAt: at block b the error result (#1) of the call whose descriptor starts with callPrefix is known to be nil.
+func c05ErrNilAt(e *fw.SymEnv, b *ssa.BasicBlock, callPrefix string) bool {
+	for d, v := range c05GuardDescs(e, b) {
+		if strings.HasPrefix(d, "("+callPrefix) && strings.HasSuffix(d, "#1 != nil)") && !v {
+			return true
+		}
+		if strings.HasPrefix(d, "("+callPrefix) && strings.HasSuffix(d, "#1 == nil)") && v {
+			return true
+		}
+		if strings.HasPrefix(d, "(nil != "+callPrefix) && !v || strings.HasPrefix(d, "(nil == "+callPrefix) && v {
+			return true
+		}
+	}
+	return false
 }
